@@ -485,6 +485,7 @@ void ClipperOffset::DoGroupOffset(Group& group)
 	{
 		Path64::size_type pathLen = path_in_it->size();
 		path_out.clear();
+		end_type_ = group.end_type; // may have been changed for the previous path
 
 		if (pathLen == 1) // single point
 		{
